@@ -177,46 +177,21 @@ func (s *ORSet) Merge(other ReplicatedData) ReplicatedData {
 	return merged
 }
 
-// Delta returns the state changes since the last call to ResetDelta.
-// Returns nil if there are no changes. The returned delta can be used
-// as a ReplicatedData and merged into a peer's ORSet.
+// Delta returns the state to ship to peers when the set changed since the last
+// call to ResetDelta, nil otherwise. The returned value can be used as a
+// ReplicatedData and merged into a peer's ORSet.
 //
-// The delta carries only the newly-added entries and a clock scoped to
-// the nodes that produced those dots. This prevents a peer from treating
-// the full clock as evidence that unseen dots have been removed.
+// The delta is the full state (as for ORMap and MVRegister). A partial state
+// cannot be expressed with a version-vector clock: Merge reads "dot covered by
+// the other side's clock but absent from its entries" as "removed there", so a
+// delta that lists only the new dot (n,2) under clock {n:2} made every peer
+// drop the still-live dot (n,1) of an element added earlier by the same node.
 func (s *ORSet) Delta() ReplicatedData {
 	if len(s.delta.added) == 0 && len(s.delta.removed) == 0 {
 		return nil
 	}
-	// Build a minimal ORSet representing just the delta.
-	d := &ORSet{
-		entries: make(map[any][]dot, len(s.delta.added)),
-		clock:   make(map[string]uint64),
-		delta:   newORSetDelta(),
-	}
-	for elem, dots := range s.delta.added {
-		cloned := cloneDots(dots)
-		d.entries[elem] = cloned
-		// Include only clock entries for nodes that produced new dots.
-		for _, dt := range cloned {
-			if c, ok := s.clock[dt.nodeID]; ok {
-				if c > d.clock[dt.nodeID] {
-					d.clock[dt.nodeID] = c
-				}
-			}
-		}
-	}
-	// Include clock entries for removed dots so that peers will see
-	// these dots as dominated and drop them during merge. We use each
-	// dot's own counter (not s.clock) to avoid over-claiming causality
-	// which could accidentally dominate unrelated higher-counter entries.
-	for _, dots := range s.delta.removed {
-		for _, dt := range dots {
-			if dt.counter > d.clock[dt.nodeID] {
-				d.clock[dt.nodeID] = dt.counter
-			}
-		}
-	}
+	d := s.cloneInternal()
+	d.delta = newORSetDelta()
 	return d
 }
 
